@@ -280,6 +280,35 @@ LAYOUT_ARGPARSE = [
 ]
 
 
+def sqlalchemy_layouts():
+    """hand-written models: every subset of {primary_key, ForeignKey, nullable, default, comment, unique+index} on one column, documented in the class
+    docstring or not, as a declarative class and as a Table expression"""
+    opts = ["pk", "fk", "nullable", "default", "comment", "unique"]
+    for r in range(0, len(opts) + 1):
+        for subset in itertools.combinations(opts, r):
+            if r > 3 and not ("pk" in subset and "fk" in subset):
+                continue
+            args = ["Integer"]
+            if "fk" in subset:
+                args.append('ForeignKey("person.id")')
+            if "pk" in subset:
+                args.append("primary_key=True")
+            if "nullable" in subset:
+                args.append("nullable=True")
+            if "default" in subset:
+                args.append("default=5")
+            if "comment" in subset:
+                args.append('comment="the owner"')
+            if "unique" in subset:
+                args += ["unique=True", "index=True"]
+            for documented in (False, True):
+                doc = '    """\n    A model.\n\n    :cvar owner_id: the owner\n    :cvar name: the name\n    """\n' if documented else '    """A model."""\n'
+                cls = "class Account(Base):\n" + doc + '    __tablename__ = "account"\n\n    owner_id = Column(%s)\n    name = Column(String, doc="the name")\n' % ", ".join(args)
+                yield dict(form="class", opts=",".join(subset) or "none", documented=documented), cls
+            tbl = 'account = Table("account", metadata, Column("owner_id", %s), Column("name", String, doc="the name"), comment="A model.")\n' % ", ".join(args)
+            yield dict(form="table", opts=",".join(subset) or "none", documented=False), tbl
+
+
 def _import_scratch(src, tag):
     """write src as a module of its own and import it (live objects need retrievable source)"""
     import importlib.util
@@ -299,6 +328,7 @@ def _import_scratch(src, tag):
 def cases(tier, seed):
     n = 3 if tier == "quick" else 4
     yield dict(kind="layout_block")
+    yield dict(kind="sqlalchemy_layout_block")
     pf_live = list(partial_functions())
     for lo in range(0, len(pf_live), 40):
         yield dict(kind="live_function_block", lo=lo, hi=lo + 40)
@@ -428,6 +458,23 @@ def run(case):
                         nm.append((args.kwarg.arg, "kwarg"))
                     sig_names = [(a, k, a in src.split('"""')[1] if src.count('"""') >= 2 else False) for a, k in nm]
                 report(pname, ir, dict(kind="layout_one", family=family, name=name, src=src), signature=sig_names, source="layout", layout=name)
+    elif case["kind"] in ("sqlalchemy_layout_block", "sqlalchemy_layout_one"):
+        import cdd.sqlalchemy.parse
+
+        items = [(case["key"], case["src"])] if case["kind"] == "sqlalchemy_layout_one" else list(sqlalchemy_layouts())
+        for key, src in items:
+            node = ast.parse(src).body[0]
+            variants = [("sqlalchemy", cdd.sqlalchemy.parse.sqlalchemy), ("sqlalchemy_hybrid", cdd.sqlalchemy.parse.sqlalchemy_hybrid)] if key["form"] == "class" else [("sqlalchemy_table", cdd.sqlalchemy.parse.sqlalchemy_table)]
+            for pname, f in variants:
+                n += 1
+                transitions += 1
+                try:
+                    ir = f(ast.parse(src).body[0])  # a fresh tree per parser: the declarative parser rewrites the node it is given
+                except Exception:
+                    outcomes.add("raises")
+                    continue
+                outcomes.add("returns")
+                report(pname, ir, dict(kind="sqlalchemy_layout_one", key=key, src=src), source="sqlalchemy_layout", pk="pk" in key["opts"], fk="fk" in key["opts"], documented=key["documented"])
     elif case["kind"] in ("live_function_block", "live_function_one"):
         import shutil
 
@@ -531,9 +578,9 @@ def describe(tier):
         "emitted through 10 format variants and re-parsed; (d) {p} functions documenting every subset and permutation of a 3-parameter "
         "signature under 5 signature shapes (defaults, self, keyword-only, *args/**kwargs), 3 styles, indented or not; (f) the same {p} functions and {lc} classes (4 docstring styles x 5 bodies x merge_inner_function) imported from a scratch module and "
         "parsed as live objects (inspect path); (g) {lay} legal but unusually laid out classes, functions and argparse functions (multi-target and tuple assignments, type comments, nested and decorated definitions, "
-        "positional-only/keyword-only, async, line continuation, argparse positionals/nargs/actions/groups) through the AST parsers with and without infer_type; (e) {j} JSON-schema documents: a property built from "
+        "positional-only/keyword-only, async, line continuation, argparse positionals/nargs/actions/groups) through the AST parsers with and without infer_type; (h) {sq} hand-written SQLAlchemy models (subsets of primary_key / ForeignKey / nullable / default / comment / unique on one column, documented or not, class and Table forms); (e) {j} JSON-schema documents: a property built from "
         "8 types x 7 patterns (word lists, lists with non-letters, a real regex) x 8 further keywords (enum, format, items, $ref, anyOf, bounds, title) x default x description x required; "
-        "a case = one parser input".format(n=3 if tier == "quick" else 4, g=sum(1 for _ in grammar_docstrings()), p=sum(1 for _ in partial_functions()), j=sum(1 for _ in json_schema_documents()), lc=sum(1 for _ in live_classes()), lay=len(LAYOUT_CLASSES) + len(LAYOUT_FUNCTIONS) + len(LAYOUT_ARGPARSE)),
+        "a case = one parser input".format(n=3 if tier == "quick" else 4, g=sum(1 for _ in grammar_docstrings()), p=sum(1 for _ in partial_functions()), j=sum(1 for _ in json_schema_documents()), lc=sum(1 for _ in live_classes()), lay=len(LAYOUT_CLASSES) + len(LAYOUT_FUNCTIONS) + len(LAYOUT_ARGPARSE), sq=sum(1 for _ in sqlalchemy_layouts())),
         bounds=dict(sigma_doc=c11.SIGMA_DOC, sections=list(SECTIONS["rest"]), signature=SIG),
         exhaustive=True,
         assumptions=["shape predicate mc/checks/c14.py:wellformed transcribes the property text; 'doc' may be None at the top level as the declared type says Optional[str]"],
